@@ -1,10 +1,10 @@
-import AmaranthVerif.Driver.ExprIO
+import AmaranthVerif.Driver.StmtIO
 
 /-! # Model driver: one request per line on stdin, one response per line on stdout -/
 
 open Amaranth
 
-def handlers : List (Sexp → Option String) := [handleExpr, handleAssign]
+def handlers : List (Sexp → Option String) := [handleExpr, handleAssign, handleProc]
 
 def respond (line : String) : String :=
   match Sexp.parse line with
